@@ -47,16 +47,23 @@ func TestMain(m *testing.M) {
 			"(Network().Connectedness, any peerstore method) is a scheduling point, and an armed-close step makes one connection (often the last one) close, with Disconnected delivered at once "+
 			"and given the chance to be handled completely, inside the next address update made with the connected lifetime, right after the k-th Connectedness answer (k<=3) or right after "+
 			"the k-th call of any kind (k<=16) about the peer; the armed connection keeps receiving pushes until then. "+
+			"A push (one in four) or response (one in sixteen) can be HELD: the remote writes the whole message while the connection is alive, the end of the stream reaches identify "+
+			"0 / 1ms / 1s / timeout/2 after that connection is gone (closed with its streams left alive, which the generator then schedules with preference), so the message is read from the "+
+			"connection and handled when Connectedness is already NotConnected if it was the last one. Every handled Disconnected notification that leaves the peer without connection, and "+
+			"every quiescent point without connection, is an observation point: until a connection is opened again the number of addresses retained may not rise above the bound for "+
+			"unconnected peers (the address book's documented per-peer cap of 64), nor above what was there at the previous observation if that was more. "+
 			"Messages are structured: 0..3000 protocols, 0..1500 listen addresses of every class (loopback, private, public, dns, relay, unroutable, own / foreign / double /p2p suffix, "+
 			"unparsable), public key of p / of another peer / garbage / empty, signed records of ten kinds (valid, somebody else's, signed by p naming another peer, signed by another peer "+
 			"naming p, wrong domain, wrong payload type, corrupted, garbage, oversized, >500 addresses), every field present, absent or repeated over 1..12 chunks, plus garbage, oversized "+
 			"and truncated chunks; replies may be delayed around the identify timeout, dribbled, stalled, reset, or fail protocol negotiation. "+
 			"Oracle: the reference model is built by construction from the generator (address classes, record validity, key ownership); see the test comments. "+
 			"NON-TRIVIAL = a consumed message carried material of another peer (key, record, /p2p suffix) or exceeded a cap, or a delivery ended at or after the close of its "+
-			"connection, or an armed close fired (a connection was closed at a harness-chosen call of identify into its host). DISTINCT = distinct (step kinds, connection, delays, "+
-			"message structure) history. FuzzIdentifyStream (seed corpus in the quick tier, coverage-guided campaign in the thorough tier): non-trivial = the bytes were consumed as a message.",
+			"connection, or an armed close fired (a connection was closed at a harness-chosen call of identify into its host), or a held message was released by the close of its connection. DISTINCT = distinct (step kinds, connection, delays, "+
+			"message structure) history. FuzzIdentifyStream (seed corpus in the quick tier, coverage-guided campaign in the thorough tier): non-trivial = the bytes were consumed as a message; "+
+			"one bit of its mode byte selects the late schedule (the only connection is gone, Disconnected handled, before identify handles the stream's content; at most 64 addresses may be retained).",
 		"multiaddr parsing is trusted to be injective on the generated templates; address classes are assigned by construction and cross-checked against manet in TestAddressTemplates",
-		"the peerstore is pstoremem (optionally with a key book that trusts its caller, which the KeyBook interface permits, and with a protocol book large enough not to mask identify's own cap)",
+		"the peerstore is pstoremem (optionally with a key book that trusts its caller, which the KeyBook interface permits, and with a protocol book large enough not to mask identify's own cap); "+
+			"its address book runs with its default, documented per-peer cap of 64 addresses for peers no live connection vouches for, which is the bound asserted for a peer without connection",
 		"same-instant events race under the Go scheduler; the oracle accepts every order of them",
 		"one authenticated remote peer per case; the other peers are bystanders that never speak",
 	)
@@ -131,6 +138,12 @@ type delivery struct {
 	pieces   int
 	gap      time.Duration
 	end      int
+	// held: the remote writes the whole message while the connection is alive, but the end
+	// of the stream reaches identify only afterClose after the connection is gone (streams
+	// left alive): the message is read from the connection and consumed when it no longer
+	// exists. Without a close within the identify timeout the exchange simply times out.
+	held       bool
+	afterClose time.Duration
 }
 
 // span is the virtual time from the start of the remote's script to its last action.
@@ -189,6 +202,14 @@ func drawDelivery(rt *rapid.T, w *world, T time.Duration, src int, push bool, la
 		d.gap = []time.Duration{0, 0, time.Millisecond, T / 4, T / 2}[rapid.IntRange(0, 4).Draw(rt, label+"-gap")]
 	}
 	d.end = []int{endCloseWrite, endCloseWrite, endCloseWrite, endCloseWrite, endCloseWrite, endCloseWrite, endCloseWrite, endCloseWrite, endCloseWrite, endClose, endClose, endStall, endReset}[rapid.IntRange(0, 12).Draw(rt, label+"-end")]
+	// one push in four and one response in sixteen is held back until its connection is gone
+	if h := rapid.IntRange(0, 15).Draw(rt, label+"-held"); h == 3 || (push && (h == 5 || h == 9 || h == 12)) {
+		d.held = true
+		d.afterClose = []time.Duration{0, 0, time.Millisecond, time.Millisecond, time.Second, T / 2}[rapid.IntRange(0, 5).Draw(rt, label+"-afterClose")]
+		if d.end == endStall || d.end == endReset {
+			d.end = endCloseWrite
+		}
+	}
 	return d
 }
 
@@ -211,6 +232,7 @@ func drawScenario(rt *rapid.T) *scenario {
 	armedConn := -1 // armed and, as far as the generator knows, still open: it may carry further pushes
 	pushes := map[int]int{}
 	src := 0
+	heldOn := -1 // connection with a held delivery that, as far as the generator knows, is still open
 	for i := 0; i < n; i++ {
 		var open, all []int
 		for c, s := range status {
@@ -219,7 +241,14 @@ func drawScenario(rt *rapid.T) *scenario {
 				open = append(open, c)
 			}
 		}
+		if heldOn >= 0 && status[heldOn] != 1 {
+			heldOn = -1
+		}
 		var choices []stepKind // rapid favours small indices: pushes first
+		if heldOn >= 0 {
+			// a held message waits for its connection to go away: closing comes next more often than not
+			choices = append(choices, stClose, stClose, stClose, stClose, stClose, stClose)
+		}
 		if i > 0 {
 			if len(open) > 0 {
 				choices = append(choices, stPush, stPush, stClose, stPush, stPush, stClose)
@@ -262,6 +291,9 @@ func drawScenario(rt *rapid.T) *scenario {
 			}
 			st.dl = drawDelivery(rt, sc.w, T, src, false, label)
 			src++
+			if st.dl.held && (st.newStream == nsOK || st.newStream == nsDelay) && st.dl.nego == negoOK {
+				heldOn = st.conn
+			}
 		case stPush:
 			// the armed connection is open until its close fires; the runner skips the push if it has fired
 			cands := open
@@ -278,12 +310,22 @@ func drawScenario(rt *rapid.T) *scenario {
 			st.conn = c
 			st.dl = drawDelivery(rt, sc.w, T, src, true, label)
 			src++
+			if st.dl.held {
+				heldOn = c
+			}
 		case stClose:
-			c := open[rapid.IntRange(0, len(open)-1).Draw(rt, label+"-conn")]
+			cands := open
+			if heldOn >= 0 { // mostly the connection a held message waits for
+				cands = append([]int{heldOn, heldOn, heldOn}, open...)
+			}
+			c := cands[rapid.IntRange(0, len(cands)-1).Draw(rt, label+"-conn")]
 			st.conn = c
 			status[c] = 2
 			st.notifyDelay = []time.Duration{0, 0, 0, time.Millisecond, time.Second, T}[rapid.IntRange(0, 5).Draw(rt, label+"-notifyDelay")]
 			st.resetStreams = rapid.Bool().Draw(rt, label+"-resetStreams")
+			if c == heldOn && rapid.IntRange(0, 7).Draw(rt, label+"-keepStreams") > 0 {
+				st.resetStreams = false // the streams outlive the connection: what was read from it can still be handled
+			}
 		case stSleep:
 			st.d = []time.Duration{time.Millisecond, time.Second, T, T + time.Millisecond, 2 * time.Minute, 16 * time.Minute}[rapid.IntRange(0, 5).Draw(rt, label+"-d")]
 		case stWait:
@@ -325,7 +367,7 @@ func (sc *scenario) fingerprint() string {
 		}
 		if st.dl != nil {
 			d := st.dl
-			fmt.Fprintf(&b, "[%v %d %d %v %d %s]", d.preDelay, d.nego, d.pieces, d.gap, d.end, d.msg.fingerprint())
+			fmt.Fprintf(&b, "[%v %d %d %v %d %v/%v %s]", d.preDelay, d.nego, d.pieces, d.gap, d.end, d.held, d.afterClose, d.msg.fingerprint())
 		}
 		b.WriteByte(';')
 	}
@@ -348,7 +390,11 @@ func (sc *scenario) describe() map[string]any {
 		}
 		if st.dl != nil {
 			d := st.dl
-			s += fmt.Sprintf(" delivery{pre=%v nego=%d pieces=%d gap=%v end=%d msg=%v}", d.preDelay, d.nego, d.pieces, d.gap, d.end, d.msg.desc)
+			held := ""
+			if d.held {
+				held = fmt.Sprintf(" end-held-until=%v-after-the-connection-is-gone", d.afterClose)
+			}
+			s += fmt.Sprintf(" delivery{pre=%v nego=%d pieces=%d gap=%v end=%d%s msg=%v}", d.preDelay, d.nego, d.pieces, d.gap, d.end, held, d.msg.desc)
 		}
 		steps = append(steps, s)
 	}
@@ -374,6 +420,37 @@ type connState struct {
 	openedAt  time.Duration
 	closedAt  time.Duration // <0 while open
 	waitBound time.Duration // instant by which the identify-wait of this conn must be released
+	held      []heldRec     // deliveries whose end waits for this connection to go away
+}
+
+// heldRec is a held delivery on a connection: if the connection goes away before
+// `until` (the deadline identify gives the stream), its message is consumed afterClose later.
+type heldRec struct {
+	until      time.Duration
+	written    time.Duration // when the remote has written everything
+	afterClose time.Duration
+}
+
+// heldPending reports whether a held delivery on cs can still be consumed once cs closes.
+func (r *runner) heldPending(cs *connState) bool {
+	now := r.now()
+	for _, h := range cs.held {
+		if now <= h.until {
+			return true
+		}
+	}
+	return false
+}
+
+// released is called when cs has gone away at instant at: the held deliveries end later.
+func (r *runner) released(cs *connState, at time.Duration) {
+	for _, h := range cs.held {
+		if at <= h.until {
+			r.active(max(at, h.written) + h.afterClose)
+			r.label("late:held-message-released-by-close")
+			r.raced = true // a delivery that ends after the close of its connection
+		}
+	}
 }
 
 type waitRec struct {
@@ -408,13 +485,18 @@ type runner struct {
 	usableRec   map[string]struct{}
 	quietFrom   time.Duration // no harness-driven activity after this instant (as scheduled so far)
 	armedConn   *connState    // connection that closes at the armed point
+	armedKeeps  bool          // its streams are left alive when it closes
 	firedAt     time.Duration // when that happened (<0: not yet); guarded by emu
 	// coverage facts about the armed close; guarded by emu
 	firedCall           string // the host call after (inside) which it fired
 	firedInNotification bool   // it fired inside a Disconnected notification of another connection
 	firedHandled        bool   // its own Disconnected notification was handled before the caller went on
-	pendingNote int           // Disconnected notifications not delivered yet
+	pendingNote int           // Disconnected notifications not delivered and handled yet
+	asyncLabels map[string]struct{}
 	waits       []waitRec
+	// bound for a peer without connection (see observeUnconnected); guarded by emu
+	unconnBase int // addresses of p at the latest observation point without any connection; <0: a connection was opened since
+	unconnSet  map[string]struct{}
 	before      map[peer.ID]string
 	emptyDigest string
 	pKeyBytes   []byte
@@ -453,7 +535,7 @@ func msLine(s string) []byte {
 }
 
 // play runs the remote side of one stream.
-func (r *runner) play(remote *memnet.Conn, d *delivery) {
+func (r *runner) play(fc *fakeConn, remote *memnet.Conn, d *delivery) {
 	r.rmu.Lock()
 	r.remotes = append(r.remotes, remote)
 	r.rmu.Unlock()
@@ -494,6 +576,12 @@ func (r *runner) play(remote *memnet.Conn, d *delivery) {
 				remote.Write(body[lo:hi])
 			}
 		}
+		if d.held {
+			// everything was written while the connection was alive; the end of the stream
+			// is seen only after the connection is gone
+			<-fc.gone
+			time.Sleep(d.afterClose)
+		}
 		switch d.end {
 		case endCloseWrite:
 			remote.CloseWrite()
@@ -531,6 +619,11 @@ func (r *runner) noteDelivery(cs *connState, d *delivery, startsAt time.Duration
 		}
 	}
 	r.active(startsAt + d.span())
+	if d.held && (d.push || d.nego == negoOK) {
+		// identify gives the stream its timeout, counted from when it has the stream
+		cs.held = append(cs.held, heldRec{until: startsAt + r.T + eps, written: startsAt + d.span(), afterClose: d.afterClose})
+		r.label("late:held-delivery")
+	}
 }
 
 func (r *runner) remoteAddr(idx, class int) ma.Multiaddr {
@@ -547,7 +640,8 @@ func (r *runner) remoteAddr(idx, class int) ma.Multiaddr {
 func (r *runner) doOpen(st *step) {
 	now := r.now()
 	fc := &fakeConn{net: r.h.net, idx: st.conn, local: r.w.local.ID, remote: r.w.p.ID, remoteKey: r.w.p.Pub,
-		laddr: ma.StringCast("/ip4/44.99.0.1/tcp/4001"), raddr: r.remoteAddr(st.conn, st.remoteClass), limited: st.limited, dir: network.DirOutbound}
+		laddr: ma.StringCast("/ip4/44.99.0.1/tcp/4001"), raddr: r.remoteAddr(st.conn, st.remoteClass), limited: st.limited, dir: network.DirOutbound,
+		gone: make(chan struct{})}
 	cs := &connState{fc: fc, class: st.remoteClass, openedAt: now, closedAt: -1}
 	used := false
 	var umu sync.Mutex
@@ -580,7 +674,7 @@ func (r *runner) doOpen(st *step) {
 			return nil, errors.New("fakeconn: connection closed")
 		}
 		s, remote := c.pipe(network.DirOutbound)
-		r.play(remote, dl)
+		r.play(c, remote, dl)
 		return s, nil
 	}
 	r.conns = append(r.conns, cs)
@@ -602,7 +696,11 @@ func (r *runner) doOpen(st *step) {
 			r.failurePath = true
 		}
 	}
+	// from here on p has a connection: what was observed while it had none no longer bounds anything
+	r.emu.Lock()
 	r.h.net.add(fc)
+	r.unconnBase, r.unconnSet = -1, nil
+	r.emu.Unlock()
 	if st.lateConnected {
 		// the service is asked about the connection before the Connected notification reaches it
 		r.waits = append(r.waits, waitRec{r.ids.IdentifyWait(fc), cs.waitBound, fmt.Sprintf("IdentifyWait(conn %d) before Connected", st.conn)})
@@ -632,7 +730,7 @@ func (r *runner) doPush(st *step) {
 	s, remote := cs.fc.pipe(network.DirInbound)
 	s.SetProtocol(identify.IDPush)
 	r.noteDelivery(cs, st.dl, now)
-	r.play(remote, st.dl)
+	r.play(cs.fc, remote, st.dl)
 	r.wg.Add(1)
 	go func() {
 		defer r.wg.Done()
@@ -644,25 +742,50 @@ func (r *runner) doClose(st *step) {
 	cs := r.conns[st.conn]
 	now := r.now()
 	cs.closedAt = now
+	r.emu.Lock()
+	r.pendingNote++ // from the close until its notification has been handled
+	r.emu.Unlock()
 	r.h.net.shut(cs.fc, st.resetStreams)
 	r.active(now + st.notifyDelay)
+	if !st.resetStreams {
+		r.released(cs, now)
+	}
 	if st.notifyDelay == 0 {
 		r.h.net.notifyDisconnected(cs.fc)
+		r.notified("close")
 		return
 	}
-	r.emu.Lock()
-	r.pendingNote++
-	r.emu.Unlock()
 	r.wg.Add(1)
 	d := st.notifyDelay
 	go func() {
 		defer r.wg.Done()
 		time.Sleep(d)
 		r.h.net.notifyDisconnected(cs.fc)
-		r.emu.Lock()
-		r.pendingNote--
-		r.emu.Unlock()
+		r.notified("close-notified-later")
 	}()
+}
+
+// notified is called (on any goroutine) when a Disconnected notification has been handled
+// completely. If p has no connection now and no other notification is outstanding, this
+// is an observation point for the bound of a peer without connection (observeUnconnected):
+// whatever is consumed from here on, until a connection is opened, is consumed for a peer
+// nothing vouches for.
+func (r *runner) notified(origin string) {
+	r.emu.Lock()
+	defer r.emu.Unlock()
+	r.pendingNote--
+	if r.pendingNote != 0 || r.h.net.Connectedness(r.w.p.ID) != network.NotConnected {
+		return
+	}
+	set := map[string]struct{}{}
+	for _, a := range r.ps.Addrs(r.w.p.ID) {
+		set[string(a.Bytes())] = struct{}{}
+	}
+	// a later observation without a connection in between only tightens the bound
+	if r.unconnBase < 0 || len(set) <= max(unconnectedCap, r.unconnBase) {
+		r.unconnBase, r.unconnSet = len(set), set
+	}
+	r.asyncLabels["observed:no-connection-left:"+origin] = struct{}{}
 }
 
 func (r *runner) doWait(st *step) {
@@ -710,6 +833,7 @@ func (r *runner) lastZero() time.Duration {
 func (r *runner) doArmClose(st *step) {
 	cs := r.conns[st.conn]
 	r.armedConn = cs
+	r.armedKeeps = !st.resetStreams
 	reset := st.resetStreams
 	point := st.point
 	fire := func(call string) {
@@ -719,10 +843,19 @@ func (r *runner) doArmClose(st *step) {
 		r.firedInNotification = calledFrom("notifyDisconnected")
 		r.emu.Unlock()
 		done := make(chan struct{})
+		r.emu.Lock()
+		r.pendingNote++
+		r.emu.Unlock()
+		origin := "armed-close-inside-message-handling"
+		if calledFrom("notifyDisconnected") {
+			origin = "armed-close-inside-disconnected-notification"
+		}
 		go func() {
 			defer close(done)
 			r.h.net.shut(cs.fc, reset)
 			r.h.net.notifyDisconnected(cs.fc)
+			// handled completely: if the caller was held meanwhile, it has not gone on yet
+			r.notified(origin)
 		}()
 		// Let the notification run until it finishes or blocks behind one of identify's own
 		// locks. A goroutine waiting for a sync.Mutex is not durably blocked, so virtual time
@@ -782,6 +915,9 @@ func (r *runner) reconcile() {
 		return
 	}
 	r.armedConn.closedAt = at
+	if r.armedKeeps {
+		r.released(r.armedConn, at)
+	}
 	r.armedConn = nil
 	r.raced = true
 	r.label("closed-inside-consumption")
@@ -834,6 +970,11 @@ func (r *runner) surelyConnected() bool {
 	r.reconcile()
 	if r.openCount() == 0 || r.now() < r.quietFrom {
 		return false
+	}
+	for _, c := range r.conns {
+		if c.closedAt < 0 && r.heldPending(c) {
+			return false // a message read from c is consumed when c goes away
+		}
 	}
 	r.emu.Lock()
 	pend := r.pendingNote
@@ -936,6 +1077,10 @@ func (r *runner) check(where string) {
 		rt.Fatalf("%s: %d addresses of the remote peer are still valid %v after the last connection closed and the last message arrived (RecentlyConnectedAddrTTL=%v): %v",
 			where, len(addrs), now-r.quietFrom, peerstore.RecentlyConnectedAddrTTL, addrs[:min(3, len(addrs))])
 	}
+	// 9. bounds for a peer without any connection
+	if r.openCount() == 0 && pend == 0 && len(r.conns) > 0 {
+		r.observeUnconnected(where, addrs)
+	}
 	// 8. identify-waits are released
 	for _, w := range r.waits {
 		if now >= w.deadline {
@@ -944,6 +1089,64 @@ func (r *runner) check(where string) {
 			default:
 				rt.Fatalf("%s: %s still blocks at %v; it had to be released by %v (identify timeout %v)", where, w.what, now, w.deadline, r.T)
 			}
+		}
+	}
+}
+
+// unconnectedCap is the number of addresses the in-memory address book keeps for a peer
+// that no live connection vouches for (pstoremem.WithMaxAddressesPerPeer: "caps the
+// unconnected addresses stored per peer. When the cap is full, adding a new addr evicts
+// the unconnected entry with the nearest expiry ... Defaults to 64"). Identify itself keeps
+// at most 20 of the addresses it held when the last connection closed.
+const unconnectedCap = 64
+
+// observeUnconnected is called at a point at which p has no connection and every
+// Disconnected notification has been delivered and handled (a quiescent point, or the
+// instant at which an armed close of the last connection has been handled while a message
+// is still being worked on). From such a point until a connection is opened again nothing
+// vouches for p's addresses, so whatever identify consumes meanwhile (a message read
+// from the last connection, handled after it is gone) must stay within the bound for
+// unconnected peers: the number of addresses retained never rises above the cap, nor
+// above what was there already if that was more (what a closing connection leaves
+// behind is bounded by identify's own limits, checked elsewhere). The lifetimes are
+// covered by invariant 7: everything is gone RecentlyConnectedAddrTTL after the last
+// consumption.
+func (r *runner) observeUnconnected(where string, addrs []ma.Multiaddr) {
+	cur := make(map[string]struct{}, len(addrs))
+	for _, a := range addrs {
+		cur[string(a.Bytes())] = struct{}{}
+	}
+	r.emu.Lock()
+	base, baseSet := r.unconnBase, r.unconnSet
+	r.unconnBase, r.unconnSet = len(cur), cur
+	r.emu.Unlock()
+	if len(cur) > unconnectedCap {
+		// not demanded by this check: what the closing of the last connection (or a message
+		// handled between that close and its Disconnected notification) left behind
+		r.label("observed:more-than-64-addresses-without-connection")
+		if base > unconnectedCap {
+			r.label("observed:more-than-64-addresses-without-connection:at-two-observations")
+		}
+	}
+	if base < 0 {
+		return
+	}
+	r.label("checked:unconnected-bound")
+	fresh := 0
+	for k := range cur {
+		if _, ok := baseSet[k]; !ok {
+			fresh++
+		}
+	}
+	if limit := max(unconnectedCap, base); len(cur) > limit {
+		r.rt.Fatalf("%s: %d addresses are retained for the remote peer although it has had no connection since the store was last looked at, when it held %d "+
+			"(%d of them are new: taken from a message handled after the last connection was gone). At most %d addresses are kept for a peer without connection.",
+			where, len(cur), base, fresh, unconnectedCap)
+	}
+	if fresh > 0 {
+		r.label("checked:unconnected-bound:message-consumed-without-connection")
+		if len(cur) == unconnectedCap {
+			r.label("checked:unconnected-bound:message-consumed-without-connection:cap-reached")
 		}
 	}
 }
@@ -1094,6 +1297,7 @@ func (r *runner) run() {
 		case stPush:
 			r.doPush(st)
 		case stClose:
+			// (surelyConnected: no message read from this connection is still to be handled)
 			cleanBefore := r.atRest && st.notifyDelay == 0 && r.openCount() == 1 && r.surelyConnected()
 			var stable map[string]ma.Multiaddr
 			if cleanBefore {
@@ -1145,6 +1349,11 @@ func (r *runner) run() {
 	synctest.Wait()
 	r.reconcile()
 	r.armedConn = nil
+	// an armed close that fired late may have released held messages
+	if d := r.quietFrom - r.now(); d > 0 {
+		time.Sleep(d + eps)
+		synctest.Wait()
+	}
 	r.check("after the last scheduled event")
 	if r.openCount() > 0 {
 		r.sleepChecked(sc.longSleep, fmt.Sprintf("after %v with a connection open", sc.longSleep))
@@ -1237,7 +1446,7 @@ func TestIdentifyAttribution(t *testing.T) {
 	hx.Check(t, 4000, 200000, 0, func(rt *rapid.T) {
 		sc := drawScenario(rt)
 		r := &runner{t: t, rt: rt, sc: sc, w: sc.w, T: sc.timeout, allowed: map[string]struct{}{}, protos: map[string]struct{}{}, usableRec: map[string]struct{}{},
-			firedAt: -1, labels: map[string]struct{}{}}
+			firedAt: -1, unconnBase: -1, labels: map[string]struct{}{}, asyncLabels: map[string]struct{}{}}
 		hx.Bubble(t, rt, r.run)
 
 		// race position: a delivery that ends at or after the close of its connection
@@ -1273,6 +1482,9 @@ func TestIdentifyAttribution(t *testing.T) {
 		}
 		labels := []string{"key:" + sc.w.p.Type}
 		for l := range r.labels {
+			labels = append(labels, l)
+		}
+		for l := range r.asyncLabels { // the bubble is over: nobody writes any more
 			labels = append(labels, l)
 		}
 		seen := map[string]bool{}
